@@ -107,6 +107,9 @@ class Monitor(object):
                 self.answered[x] = out[1]
             else:
                 self.refused = True
+        elif k == 'PQ':
+            _, x, extra, missing = ev
+            self.bad('H3d', f'{x}: the question quotes {extra} as needing it and leaves out {missing}: not the lines that read it')
         elif k == 'PX':
             self.open_prompt = None
         elif k == 'TR':
